@@ -356,8 +356,13 @@ fn exec_iofault(case: &Case) -> CaseResult {
         rng.shuffle(&mut keep);
         keep.truncate(max_points * 2 / 3);
         rng.shuffle(&mut rest);
+        // reads of table files are where iterators and compactions meet a failing disk: they get a
+        // quota of their own (a third of the budget on top), the remaining budget is uniform
+        let table_reads: Vec<usize> = rest.iter().copied().filter(|i| sites[*i].1 == crate::simfs::FileClass::Table && matches!(sites[*i].0, CallKind::Read | CallKind::Open)).take(max_points / 3).collect();
+        rest.retain(|i| !table_reads.contains(i));
         rest.truncate(max_points.saturating_sub(keep.len()));
         keep.extend(rest);
+        keep.extend(table_reads);
         keep.sort_unstable();
         positions = keep;
     } else {
